@@ -83,10 +83,13 @@ class TextParser(Native):
 
     def parse_separator(self, separator, min_length=1, max_length=None):
         sb = separator.encode(self.encoding)
+        # as ParserText._check_separators: the whole run is counted; a run longer than max_length is an error, not a stop
         n = 0
-        while (max_length is None or n < max_length) and any(self.data[self.pos + n:self.pos + n + 1] == bytes([c]) for c in sb):
+        while any(self.data[self.pos + n:self.pos + n + 1] == bytes([c]) for c in sb):
             n += 1
-        if n < min_length:
+            if max_length is not None and n > max_length:
+                raise InvalidValue('separator')
+        if min_length is not None and n < min_length:
             raise InvalidValue('separator')
         self.pos += n
 
